@@ -309,12 +309,15 @@ func (d *Dynamic) Draw(ctx vxfw.DrawContext) (vxfw.Surface, error) {
 		}
 	}
 
-	// Reset origins and state based on actual draw
+	// Reset origins and state based on actual draw. The top widget is the
+	// one whose rows, or the gap below them, cover the first row of the
+	// viewport
 	for i, ch := range s.Children {
 		if ch.Origin.Row <= 0 &&
-			ch.Origin.Row+int(ch.Surface.Size.Height) > 0 {
+			ch.Origin.Row+int(ch.Surface.Size.Height)+d.Gap > 0 {
 			d.scroll.top += uint(i)
 			d.scroll.offset = -ch.Origin.Row
+			break
 		}
 	}
 
